@@ -811,11 +811,13 @@ class Interp(Ops):
         return self.new_list(self.comp(e, fr))
 
     def e_GeneratorExp(self, e, fr):
-        if len(e.generators) == 1 and not e.generators[0].ifs and isinstance(e.generators[0].target, ast.Name):
+        if len(e.generators) == 1 and isinstance(e.generators[0].target, ast.Name):
             it = self.eval(e.generators[0].iter, fr)
             if isinstance(it, VSet):
                 from .loops import VMapped
-                return VMapped(it, e.generators[0].target.id, e.elt, fr)
+                m = VMapped(it, e.generators[0].target.id, e.elt, fr)
+                m.conds = list(e.generators[0].ifs)      # (f(x) for x in S if c(x)): consumed by next() / any() only
+                return m
         return self.new_list(self.comp(e, fr))
 
     def e_SetComp(self, e, fr):
@@ -1079,6 +1081,9 @@ class Interp(Ops):
             o = VObj(ci.name, self.st.fresh("new_" + ci.pyname, obj_sort(ci.name)))
             for n in names:
                 self.st.assume(_b(self.eq(self.get_field(o, n), vals[n])))
+            cc = getattr(self, "current_contract", None)
+            if cc is not None and getattr(cc, "seq_lemmas", False):
+                self.assume_fresh(o)
             return o
         if ci.is_dataclass:
             fields = self.repo.all_fields(ci)
@@ -1209,6 +1214,12 @@ class Interp(Ops):
     # ================================================================== running a body (local closures, verified fn)
     def run_body(self, finfo: FuncInfo, defining: Frame | None, args, kwargs, preset: dict | None) -> V:
         fr = Frame(finfo, defining, cls=finfo.cls)
+        shas = getattr(self, "body_shas", None)
+        if shas is not None:
+            try:
+                shas.add(finfo.sha)        # every real body executed for this function's obligations (see baseline.json)
+            except Exception:  # noqa: BLE001  (harness bodies have no repository source)
+                pass
         if preset is not None:
             fr.vars.update(preset)
         else:
@@ -1520,6 +1531,33 @@ class Interp(Ops):
             self.do_await(self.call_function(self.getattr(cm, "__aexit__"), [VNone, VNone, VNone], {}, s), s)
         if pending is not None:
             raise pending
+
+    def assume_fresh(self, o):
+        """a newly constructed object is not an element of any collection that exists at this moment (Python object
+        identity): stated for every sequence / set / map-of-sequences in the heap whose element sort is the object's"""
+        st = self.st
+        srt = o.ref.sort()
+        for (ref, sub), term in list(st.heap.items()):
+            if not z3.is_expr(term):
+                continue
+            ts = term.sort()
+            try:
+                if sub == "seq" and z3.is_seq(term) and ts.basis() == srt:
+                    i = z3.Int(st.fresh_name("i"))
+                    st.assume(z3.ForAll([i], z3.Implies(z3.And(i >= 0, i < z3.Length(term)), term[i] != o.ref), patterns=[term[i]]))
+                elif sub == "set" and z3.is_array(term) and ts.domain() == srt and ts.range() == z3.BoolSort():
+                    st.assume(z3.Not(z3.Select(term, o.ref)))
+                elif sub == "val" and z3.is_array(term) and z3.is_seq(z3.Select(term, z3.Const("k!", ts.domain()))) \
+                        and ts.range().basis() == srt:
+                    k = z3.Const(st.fresh_name("k"), ts.domain())
+                    i = z3.Int(st.fresh_name("i"))
+                    dom = st.heap.get((ref, "dom"))
+                    guard = z3.And(i >= 0, i < z3.Length(z3.Select(term, k)))
+                    if dom is not None:
+                        guard = z3.And(z3.Select(dom, k), guard)
+                    st.assume(z3.ForAll([k, i], z3.Implies(guard, z3.Select(term, k)[i] != o.ref)))
+            except (z3.Z3Exception, AttributeError):
+                continue
 
     # ------------------------------------------------------------------ loops
     def s_For(self, s, fr):
